@@ -193,4 +193,23 @@ theorem avg_mono (d : Params ℝ) (hab : d.a ≤ d.b) (hc : 0 < d.c) (n n' : ℝ
   simp only [Option.getD_some]
   cases m <;> cases d.convex <;> simp <;> nlinarith
 
+/-- the level handed to `ppf` is a probability -/
+theorem level_mem (m : Bool) (q nn : ℝ) (hq0 : 0 ≤ q) (hq1 : q ≤ 1) (hn : 0 < nn) :
+    0 ≤ level m q nn ∧ level m q nn ≤ 1 := by
+  have he : (0:ℝ) ≤ 1 / nn := by positivity
+  unfold level
+  simp only [num_n, num_pow, Nat.cast_one]
+  cases m
+  · simp only [Bool.false_eq_true, if_false]
+    exact ⟨Real.rpow_nonneg hq0 _, Real.rpow_le_one hq0 hq1 he⟩
+  · simp only [if_true]
+    have h0 : 0 ≤ (1 - q) ^ (1 / nn) := Real.rpow_nonneg (by linarith) _
+    have h1 : (1 - q) ^ (1 / nn) ≤ 1 := Real.rpow_le_one (by linarith) (by linarith) he
+    constructor <;> linarith
+
+/-- `q^{1/n}` resp. `1 − (1−q)^{1/n}` -/
+theorem level_eq (m : Bool) (q nn : ℝ) :
+    level m q nn = if m then 1 - (1 - q) ^ (1 / nn) else q ^ (1 / nn) := by
+  unfold level; simp
+
 end Opda.Quad
